@@ -154,6 +154,10 @@ def run(ctx: Ctx) -> None:
         ok = bool(uses) != bool(warn) or bool(uses)
         ctx.add('C07.R3', f'optimization.{g.name}:bounds', ok and (bool(uses) or bool(warn)), g,
                 f'{name}: bounds ' + ('are forwarded to the backend' if uses else 'are ignored with a warning') if (uses or warn) else f'{name}: bounds are neither forwarded nor reported as ignored', 'fwd' if uses else 'warn' if warn else 'dropped')
+        dropped = [a for a in walk_no_nested(g.node) if isinstance(a, ast.Assign) and any(unparse(t) == 'bounds' for t in a.targets) and isinstance(a.value, ast.Constant) and a.value.value is None]
+        if dropped and uses:
+            ctx.add('C07.R3', f'optimization.{g.name}:bounds-dropped', False, (g.file, dropped[0].lineno), f'{g.name} sets its parameter `bounds` to None (under a condition) before handing it to the backend: '
+                    'declared bounds are then not enforced and estimates outside them are returned by an algorithm that supports bounds', 'dropped', positive=True)
         if 'bounds' in str(name):
             # the name under which users select it promises bound support
             ctx.add('C07.R3', f'optimization.algorithms[{name}]:advertised', bool(uses), (om.path, k.lineno),
@@ -200,6 +204,30 @@ def run(ctx: Ctx) -> None:
     ctx.add('C07.R4', 'Beta.change_init_values:guard', okb if (okb or truthy) else None, ci, f'a value is written whenever it is given ({det})' if okb else
             (f'the write of initValue is guarded by `{det}`: the truth test of the value skips a legitimate value of 0.0' if truthy else f'the guard `{det}` of the write of initValue is not in the expected form'), det, positive=truthy)
 
+    # R7: option tables: one option, one variable
+    ctx.rule('C07.R7', 'option tables: in the functions that read the dictionary of algorithm parameters, `if <key> in parameters: <variable> = parameters[<key>]` reads the key it tested, and no two '
+             'different keys are read into the same variable (the tolerance of the user must not be overwritten by another option)')
+    n_opt = 0
+    for modname in ('negative_likelihood', 'optimization'):
+        for fn_ in prog.module(modname).all_functions:
+            reads = []  # (variable, key, guard key, node)
+            for i_ in walk_no_nested(fn_.node):
+                if isinstance(i_, ast.If) and isinstance(i_.test, ast.Compare) and len(i_.test.ops) == 1 and isinstance(i_.test.ops[0], ast.In) and isinstance(i_.test.left, ast.Constant) and unparse(i_.test.comparators[0]) == 'parameters':
+                    for a_ in i_.body:
+                        if isinstance(a_, ast.Assign) and isinstance(a_.targets[0], ast.Name) and isinstance(a_.value, ast.Subscript) and unparse(a_.value.value) == 'parameters' and isinstance(a_.value.slice, ast.Constant):
+                            reads.append((a_.targets[0].id, a_.value.slice.value, i_.test.left.value, a_))
+            by_var: dict[str, set] = {}
+            for v_, k_, g_, a_ in reads:
+                by_var.setdefault(v_, set()).add(k_)
+            for v_, k_, g_, a_ in reads:
+                n_opt += 1
+                clash = sorted(by_var[v_] - {k_})
+                okk = k_ == g_ and not clash
+                ctx.add('C07.R7', f'{fn_.qualname}:{v_}<-{k_}', okk, (fn_.file, a_.lineno), f'{v_} = parameters[{k_!r}] under its own test' if okk else
+                        (f'{v_} is read from parameters[{k_!r}] under the test of {g_!r}' if k_ != g_ else f'{v_} receives the option {k_!r} and also the option {clash[0]!r}: the later one overwrites the other, which is then ignored by the algorithm'),
+                        f'{v_}<-{k_}', positive=True)
+    if n_opt < 15:
+        raise AnalysisError(f'C07.R7: only {n_opt} option reads found in negative_likelihood / optimization')
     restore_rule(ctx, 'C07.R5')
     # R6
     ca = prog.func('check_parameters', 'check_algo_name')
